@@ -112,3 +112,11 @@ var _ = pr.AutoF
 //@   pure
 //@ func iface (boxes.*).PageValues
 //@   pure
+
+// HTML integer attributes (colspan, rowspan, span): never a panic; a non-number reads as 1,
+// a number below the minimum as the minimum
+//@ func integerAttribute
+//@   props C07
+//@   nopanic
+//@   modifies nothing
+//@   ensures result == 1 || result >= minimum
